@@ -105,7 +105,10 @@ def prog(env, case):
     m = tiny_model(env, spec) if spec.get('tiny') else pipeline.build(env, spec)
     pep = m.pep
     before = held_objects(env, m, after=False)
-    tau, err = pipeline.safe_solve(env, pep, tag, wrapper=backend, verbose=0, return_primal_or_dual='primal')
+    kw = {}
+    if spec.get('dimred'):
+        kw['dimension_reduction_heuristic'] = spec['dimred']
+    tau, err = pipeline.safe_solve(env, pep, tag, wrapper=backend, verbose=0, return_primal_or_dual='primal', **kw)
     if err:
         return err
     if tau is None:
@@ -158,6 +161,18 @@ def prog(env, case):
                                   - Gpsd[i, j]) <= 1e-6 * (1 + abs(Gpsd).max()),
                               "inner product of evaluated leaf points (%d,%d) differs from the PSD projection of the Gram "
                               "matrix" % (i, j), signature=tag + (":gram" if w.min() >= 0 else ":gram-clipped"))
+    # ---- (a') the instance PEPit exposes is the solver's (last) solution, not a post-processed copy -------------------
+    if env.sym:
+        last = stub.solves[-1]
+        for i in range(n):
+            for j in range(i, n):
+                ref = last.x[pep.wrapper.G.key((i, j))] if backend == 'cvxpy' else last.barx[0][i, j]
+                env.check_eq(G[i, j], ref, "PEP.G_value is not the Gram matrix returned by the (last) solve",
+                             signature=tag + ":instance-is-solution")
+    else:
+        Gl = np.asarray(pep.wrapper.optimal_G, dtype=float)
+        env.check(np.abs(Gl - np.asarray(G, dtype=float)).max() <= 1e-6 * (1 + np.abs(Gl).max()),
+                  "PEP.G_value is not the Gram matrix returned by the (last) solve", signature=tag + ":instance-is-solution")
     # ---- (b) eval() of every held object = denotation over the leaf values -----------------------------------
     from PEPit.psd_matrix import PSDMatrix
     from PEPit.constraint import Constraint
@@ -273,6 +288,8 @@ def cases(tier):
     add("gd-lmi", lmis=['sym2'])
     add("convex-prox", fclass='convex', steps=['prox'], metrics=2)
     add("qg-late-leaf", fclass='qg', stationary=False)
+    add("gd-trace", dimred='trace')
+    add("gd-logdet1", dimred='logdet1', backends=('cvxpy',))
     if tier == 'thorough':
         add("gd-gram3", check_gram=True, backends=('cvxpy',))
         add("quad", fclass='quad')
